@@ -125,14 +125,9 @@ func (d *Data) partitionPoints(pts []dvid.Point3d) map[dvid.IZYXString]ptsIndex 
 	blockSize := d.BlockSize().(dvid.Point3d)
 	blockPts := make(map[dvid.IZYXString]ptsIndex)
 	for i, pt := range pts {
-		x := pt[0] / blockSize[0]
-		y := pt[1] / blockSize[1]
-		z := pt[2] / blockSize[2]
-		bx := pt[0] % blockSize[0]
-		by := pt[1] % blockSize[1]
-		bz := pt[2] % blockSize[2]
-		bpt := dvid.Point3d{bx, by, bz}
-		bcoord := dvid.ChunkPoint3d{x, y, z}.ToIZYXString()
+		// Use floor division so points with negative coordinates land in the right block.
+		bpt := pt.PointInChunk(blockSize).(dvid.Point3d)
+		bcoord := pt.Chunk(blockSize).(dvid.ChunkPoint3d).ToIZYXString()
 		ptsi, found := blockPts[bcoord]
 		if found {
 			ptsi.pts = append(ptsi.pts, bpt)
